@@ -77,13 +77,6 @@ class MyPyAstVisitor:
         wildcard_imports: list[WildcardImport] = []
         docstring = ""
 
-        # We don't need to check functions, classes and assignments, since the ast walker will already check them
-        child_definitions = [
-            _definition
-            for _definition in get_mypyfile_definitions(node)
-            if _definition.__class__.__name__ not in {"FuncDef", "Decorator", "ClassDef", "AssignmentStmt"}
-        ]
-
         # Imports
         for import_ in node.imports:
             if isinstance(import_, mp_nodes.Import):
@@ -107,11 +100,10 @@ class MyPyAstVisitor:
                     WildcardImport(import_.id),
                 )
 
-        # Search for a Docstring
-        for definition in child_definitions:
+        # Search for a Docstring. Only a string that is the first statement of the module is its docstring.
+        for definition in get_mypyfile_definitions(node)[:1]:
             if isinstance(definition, mp_nodes.ExpressionStmt) and isinstance(definition.expr, mp_nodes.StrExpr):
                 docstring = definition.expr.value
-                break
 
         # Create module id to get the full path
         id_ = node.fullname.replace(".", "/")
